@@ -78,3 +78,42 @@ def _poi(E):
 both_backends('c12.parse_or_ignore.total', ['C12', 'C04'], functions=[FR + 'parse_or_ignore', FR + 'is_frame_to_ignore'] + PARSERS,
               replay='c12_parse_total',
               assumptions=['reserved stream-id bit may be anything here (hostile input); struct/cbitstruct models as in C02'])(_poi)
+
+
+# --------------------------------------------------------------------------- the frame logger runs on EVERY frame, in both directions
+
+@harness('c12.log_frame.total', ['C12', 'C04', 'C11'], functions=['rsocket/frame_logger.py::log_frame'],
+         assumptions=['logging calls are no-ops whose arguments are evaluated; the logging configuration (levels) is arbitrary'])
+def log_frame_total(E):
+    """log_frame is called by the receiver on whatever the parser yields - including the InvalidFrame marker of an
+    undecodable frame - before anything else happens, and by the sender on every frame written.  Whatever the logging
+    configuration: it never raises (an exception here would be charged to the frame and, for the marker, kill the receiver)."""
+    E.stubs.pop('rsocket/frame_logger.py::log_frame', None)
+    FRq = 'rsocket/frame.py::'
+    kinds = ['InvalidFrame', 'SetupFrame', 'LeaseFrame', 'KeepAliveFrame', 'RequestResponseFrame', 'RequestFireAndForgetFrame',
+             'RequestStreamFrame', 'RequestChannelFrame', 'RequestNFrame', 'CancelFrame', 'PayloadFrame', 'ErrorFrame',
+             'MetadataPushFrame', 'ResumeFrame', 'ResumeOKFrame', 'ExtendedFrame']
+    avail = [k for k in kinds if k in E.module('rsocket.frame').globals]
+    k = avail[E.path.choice(len(avail), 'frame')]
+    f = E.call(E.lookup(FRq + k), [])
+    if k != 'InvalidFrame':
+        E.setattr(f, 'stream_id', E.fresh_int('sid', 0, 0x7FFFFFFF))
+        for a, v in (('data', [None, E.fresh_bytes('d')][E.path.choice(2, 'data')]), ('metadata', [None, E.fresh_bytes('m')][E.path.choice(2, 'md')])):
+            E.setattr(f, a, v)
+        extra = {'SetupFrame': dict(data_encoding=b'a/b', metadata_encoding=b'c/d', keep_alive_milliseconds=1, max_lifetime_milliseconds=2),
+                 'LeaseFrame': dict(number_of_requests=3, time_to_live=9), 'KeepAliveFrame': dict(last_received_position=0),
+                 'RequestStreamFrame': dict(initial_request_n=5), 'RequestChannelFrame': dict(initial_request_n=5),
+                 'RequestNFrame': dict(request_n=7),
+                 'ErrorFrame': dict(error_code=E.lookup('rsocket/error_codes.py::ErrorCode').members['REJECTED']),
+                 'ResumeFrame': dict(last_server_position=0, first_client_position=0, resume_identification_token=b't', token_length=1),
+                 'ResumeOKFrame': dict(last_received_client_position=0)}.get(k, {})
+        for a, v in extra.items():
+            E.setattr(f, a, v)
+    direction = ['Received', 'Sent'][E.path.choice(2, 'direction')]
+    try:
+        E.call(E.lookup('rsocket/frame_logger.py::log_frame'), [f, 'server', direction])
+    except PyExc as e:
+        E.prove('log_frame:never_raises[%s, %s: %s]' % (k, direction, e.value.cls.name), False)
+        return
+    E.cover('logged')
+    E.prove('log_frame:never_raises', True)
